@@ -73,10 +73,11 @@ theorem performRedirs_wf (o : Oracle W) (w : W) (t : FdTable) (rs : List Redir) 
 /-- ★ the same at the level of a command, for the way each command kind uses the guard
     (`execute_builtin`, `execute_function`, `execute_external_utility`, `FullCompoundCommand::execute`,
     `execute_absent_target`): afterwards the table is what it was before, whether the command ran,
-    was not found, or a redirection failed — except for an `exec` whose redirections all succeeded -/
-theorem command_restores (w : World) (t : FdTable) (k : Kind) (rs : List Redir) (hw : WF t)
-    (h : k = .exec → (performRedirs worldOracle w t rs).err ≠ none) :
-    (runCommand w t k rs).t.limit = t.limit ∧ ∀ fd, (runCommand w t k rs).t.get fd = t.get fd := by
+    was not found, or a redirection failed — except for an `exec` (or `command exec`) whose
+    redirections all succeeded -/
+theorem command_restores (w : World) (t : FdTable) (k : Kind) (rs : List Redir) (prev : Nat) (hw : WF t)
+    (h : k = .exec ∨ k = .commandExec → (performRedirs worldOracle w t rs).err ≠ none) :
+    (runCommand w t k rs prev).t.limit = t.limit ∧ ∀ fd, (runCommand w t k rs prev).t.get fd = t.get fd := by
   have hu := undo_restores worldOracle w t rs hw
   unfold runCommand
   cases k with
@@ -88,9 +89,14 @@ theorem command_restores (w : World) (t : FdTable) (k : Kind) (rs : List Redir) 
   | exec =>
     simp only
     cases he : (performRedirs worldOracle w t rs).err with
-    | none => exact absurd he (h rfl)
+    | none => exact absurd he (h (.inl rfl))
     | some e => simp only; split <;> exact hu
-  | special | colon | regular | func | brace | notFound =>
+  | commandExec =>
+    simp only
+    cases he : (performRedirs worldOracle w t rs).err with
+    | none => exact absurd he (h (.inr rfl))
+    | some e => simp only; split <;> exact hu
+  | special | colon | regular | func | brace | notFound | paren =>
     simp only
     cases he : (performRedirs worldOracle w t rs).err with
     | none => first | exact hu | (simp only; exact hu)
@@ -190,6 +196,31 @@ theorem internal_fds (o : Oracle W) (w : W) (t : FdTable) (rs : List Redir) :
           exact h1
         · rw [hp] at he'; cases he'
       · exact ih _ _ s hmem sv hsv
+
+/-- ☆ conversely the guard adds no other CLOEXEC descriptor: whatever is CLOEXEC in the table the
+    command sees was CLOEXEC before or is one of the guard's saved copies (so descriptors 0–9 that
+    redirections create are never CLOEXEC) -/
+theorem internal_only (o : Oracle W) (w : W) (t : FdTable) (rs : List Redir) (fd : Fd)
+    (h : (performRedirs o w t rs).t.isCloexec fd = true) :
+    t.isCloexec fd = true ∨ ∃ s ∈ (performRedirs o w t rs).saved, s.save = some fd := by
+  induction rs generalizing w t with
+  | nil => exact .inl h
+  | cons r rs ih =>
+    cases hp : (perform o w t r).r with
+    | error e =>
+      rw [performRedirs_cons_err o w t r rs e hp] at h ⊢
+      rcases perform_cloexec_origin o w t r fd h with h1 | ⟨s, hs, _⟩
+      · exact .inl h1
+      · rw [hp] at hs; cases hs
+    | ok s0 =>
+      rw [performRedirs_cons_ok o w t r rs s0 hp] at h ⊢
+      simp only at h ⊢
+      rcases ih _ _ h with h1 | ⟨s, hs, hsv⟩
+      · rcases perform_cloexec_origin o w t r fd h1 with h2 | ⟨s, hs, hsv⟩
+        · exact .inl h2
+        · rw [hp] at hs; cases hs
+          exact .inr ⟨s0, List.mem_cons_self .., hsv⟩
+      · exact .inr ⟨s, List.mem_cons_of_mem _ hs, hsv⟩
 
 /-- ★ `perform` refuses to touch a CLOEXEC target (`ReservedFd`), leaving the table as it is -/
 theorem perform_refuses_cloexec_target (o : Oracle W) (w : W) (t : FdTable) (r : Redir)
